@@ -8,6 +8,7 @@ From Coq Require Import List NArith Bool.
 From Coq Require Import Permutation Sorted.
 From Storage Require Import Base.Bytes Store.Model Store.UniqueProofs Store.WfSchema Store.ChildProofs.
 From Storage Require Import Store.Paging Store.PagingProofs Store.PagingChild.
+From Storage Require Import Store.XOps Store.ChildDeleteWhere.
 Import ListNotations.
 
 (* an entity created through the child store exists in both stores, and the parent's fields hold the values
@@ -165,3 +166,64 @@ Theorem child_paged_query_only_children : forall sch r c st flt srt (skip : nat)
   snd (query_page sch st r flt srt skip limit) = length (filter (q_match sch st r flt) (ids_of st r)).
 Proof. exact child_paged_query_only_children_closed. Qed.
 Print Assumptions child_paged_query_only_children.
+
+(* ---- DeleteWhere through the stores of a family (Store/XOps.v XDeleteWhere = BaseStore.DeleteWhere: QueryIds of the
+   filter through the store it was called on, then DeleteById for every id returned; Store/ChildDeleteWhere.v) ----
+
+   The ids DeleteWhere collects, in EVERY state: through a plain child store exactly the entities WITH child data that
+   satisfy the filter (a plain parent entity that satisfies it is not among them), through an extended child store every
+   parent entity that satisfies it (the filter is evaluated through the child store: it may name the child's own fields),
+   through the parent store every parent entity that satisfies it *)
+Theorem delete_where_through_child_ids : forall sch r c st flt,
+  wf_child_b sch r c = true ->
+  (is_ext sch c = false ->
+     forall i, In i (dw_ids sch st c flt) <-> present sch st c i = true /\ dw_matches sch st c flt i = true) /\
+  (is_ext sch c = true ->
+     forall i, In i (dw_ids sch st c flt) <-> present sch st r i = true /\ dw_matches sch st c flt i = true) /\
+  (forall i, In i (dw_ids sch st r flt) <-> present sch st r i = true /\ dw_matches sch st r flt i = true).
+Proof. exact delete_where_ids_closed. Qed.
+Print Assumptions delete_where_through_child_ids.
+
+(* DeleteWhere through the child store IS the sequence of DeleteById calls through the PARENT store for exactly those ids
+   (same result, same state, same events) *)
+Theorem delete_where_through_child_is_parent_deletes : forall sch r c fuel oc stev flt,
+  wf_child_b sch r c = true ->
+  run_xop sch fuel oc stev (XDeleteWhere c flt) =
+  snd (run_ops sch fuel oc stev (map (ODelete r) (dw_ids sch (fst stev) c flt))).
+Proof. exact delete_where_through_child_closed. Qed.
+Print Assumptions delete_where_through_child_is_parent_deletes.
+
+(* a successful DeleteWhere through either store leaves neither the parent entity nor the child data of any collected id,
+   and neither store's query returns it any more *)
+Theorem delete_where_removes_both : forall sch r c fuel oc st evs s0 flt st' evs',
+  wf_child_b sch r c = true -> s0 = r \/ s0 = c ->
+  run_xop sch fuel oc (st, evs) (XDeleteWhere s0 flt) = Ok (st', evs') ->
+  forall i, In i (dw_ids sch st s0 flt) ->
+    present sch st' r i = false /\ present sch st' c i = false /\
+    ~ In i (query_ids sch st' r) /\ ~ In i (query_ids sch st' c).
+Proof. exact delete_where_removes_both_closed. Qed.
+Print Assumptions delete_where_removes_both.
+
+(* ... and it touches nothing else: an entity of r that the store's query did not show for the filter keeps its presence,
+   its child data and every field - provided no cascade-delete constraint leads back into the family of r (boolean check
+   dw_zone_b over a list of store names closed under root-of / child stores / cascade referrers; otherwise other entities
+   of r legitimately go with the cascade) *)
+Theorem delete_where_spares_the_rest : forall sch r c zone fuel oc st evs s0 flt st' evs',
+  wf_child_b sch r c = true -> dw_zone_b sch r zone = true -> s0 = r \/ s0 = c -> mem_name s0 zone = true ->
+  run_xop sch fuel oc (st, evs) (XDeleteWhere s0 flt) = Ok (st', evs') ->
+  forall j, ~ In j (dw_ids sch st s0 flt) ->
+    present sch st' r j = present sch st r j /\ present sch st' c j = present sch st c j /\
+    (forall f, get_field sch st' r j f = get_field sch st r j f) /\
+    (forall f, get_field sch st' c j f = get_field sch st c j f).
+Proof. exact delete_where_spares_closed. Qed.
+Print Assumptions delete_where_spares_the_rest.
+
+(* in particular DeleteWhere through a PLAIN child store never deletes a plain parent entity, whether or not it satisfies
+   the filter *)
+Theorem delete_where_plain_child_spares_plain_parents : forall sch r c zone fuel oc st evs flt st' evs',
+  wf_child_b sch r c = true -> is_ext sch c = false -> dw_zone_b sch r zone = true -> mem_name c zone = true ->
+  run_xop sch fuel oc (st, evs) (XDeleteWhere c flt) = Ok (st', evs') ->
+  forall j, present sch st r j = true -> present sch st c j = false ->
+    present sch st' r j = true /\ (forall f, get_field sch st' r j f = get_field sch st r j f).
+Proof. exact delete_where_plain_child_spares_plain_parents_closed. Qed.
+Print Assumptions delete_where_plain_child_spares_plain_parents.
